@@ -65,6 +65,9 @@ func newHist(kind, id string, v3cancel bool) *hist {
 		h.copies[i] = map[string]*rec{}
 	}
 	fmt.Fprintf(out, "c15.begin\t%s\t%s\n", id, kind)
+	// Atomix map.Events returns once the FIRST of the three partitions has acknowledged the subscription; the
+	// others may lag by a moment and events written meanwhile are lost (substrate behaviour, outside /repo).
+	time.Sleep(40 * time.Millisecond)
 	h.warmup()
 	return h
 }
@@ -300,6 +303,9 @@ func (h *hist) watch(replay bool, idkey string) {
 		}
 	}()
 	h.watchers = append(h.watchers, w)
+	if h.kind == "prop2" {
+		time.Sleep(25 * time.Millisecond) // per-watch Atomix subscription: see newHist
+	}
 	r := 0
 	if replay {
 		r = 1
